@@ -28,7 +28,7 @@ AngleInDomain(G, i) ==           \* 8 deg <= angle <= 170 deg, as integer inequa
   IF CosSign(G, i) >= 0 THEN 100 * Cos2Num(G, i) <= 98 * Cos2Den(G, i)
   ELSE 100 * Cos2Num(G, i) <= 96 * Cos2Den(G, i)
 Guard(t) ==
-  IF ~(t.sn \in 1..100 /\ t.sd \in 1..100 /\ t.n \in 1..48) THEN "scale" ELSE
+  IF ~(t.sn \in 1..100 /\ t.sd \in 1..16 /\ t.n \in 1..48) THEN "scale" ELSE
   IF ~(t.kind \in {"L", "G"}) THEN "kind" ELSE
   IF t.kind = "L" /\ ~InRangeL(t.L) THEN "magnitude" ELSE
   IF t.kind = "L" /\ M3Det(t.L) <= 0 THEN "orientation" ELSE
@@ -133,14 +133,14 @@ CartOK(t, c, o) ==
             WithinObs(BMul(x[j], bn),
                       BAdd(BAdd(BMulInt(o.D[1][j], p[1]), BMulInt(o.D[2][j], p[2])), BMulInt(o.D[3][j], p[3])),
                       c.W1, BI(SumAbs(p) * (c.s2d + c.s2n * M3Tr(c.G))), BI(2 * c.s2d))
-       /\ Within(Dot3(x, x), P2, BI(c.s2n * QuadForm(c.G, p)), BI(c.s2d * t.n * t.n), c.W2,
+       /\ Within(Dot3(x, x), P2, BMul(c.bs2n, BI(QuadForm(c.G, p))), BI(c.s2d * t.n * t.n), c.W2,
                  BMul(BI(c.s2n * M3Tr(c.G)), BI(Norm2(p))), BI(c.s2d * t.n * t.n))     \* |x|^2 <= s^2 tr G |p/n|^2
 (* to_fractional(to_cartesian(p/n)) = p/n *)
 RoundTripOK(t, c, o) ==
   \A m \in DOMAIN t.pts :
     LET p == t.pts[m]
         bn == BI(t.n)
-    IN \A i \in Ix : Within(o.fs[m][i], P1, BI(p[i]), bn, c.W1, BI(c.kI * (t.n + SumAbs(p))), bn)
+    IN \A i \in Ix : Within(o.fs[m][i], P1, BI(p[i]), bn, c.W1, BMul(BI(c.kI), BI(t.n + SumAbs(p))), bn)
 
 (* both routes give the same metric (observation against observation) *)
 SameGram(c, d1, d2) ==
